@@ -31,6 +31,8 @@ class ImmutableKnotVector(tuple):
     def __is_valid(vector: Tuple[float], degree: Union[int, None]):
         try:
             for knot in vector:
+                if isinstance(knot, str):  # float("0") works, not a number
+                    return False
                 float(knot)
         except TypeError:
             return False
